@@ -8,6 +8,7 @@ CONSTANTS
   ScanMemo = "rows published while the first scan fills them"
   OperandScope = "per call"
   SubqueryColumns = "per table object"
+  ResultScope = "per execute call"
   JobSet = "scan"
 INIT Init
 NEXT Next
